@@ -162,6 +162,23 @@ CLAIMS = {
             "and stream_native, whose output is decoded and compared. Two defects found were repaired.",
             "Table modes are decoded from the last printed frame. CLI part sampled in quick.", "TLA+ relational spec + exhaustive small family replayed through engine and the real CLI in five output modes",
             "DESIGN.md 6/C05"),
+    "C06": ("fault_enumeration",
+            "ErrorProp.tla enumerates operator chains (filter, map, distinct, order by, group by, either input of stream / outer / lookup joins, subquery "
+            "expression, LIMIT) x fault position and decides MustFail (the fault is reached under every evaluation order; TLC also checks that the property "
+            "depends on every operator forwarding errors). Two fault kinds run through the real pipeline: a source returning an error at row p, and a value "
+            "failing a run-time type assertion in an expression above the chain; the real binary runs 7 query shapes over files with a malformed JSON row, a "
+            "short CSV row, an over-long line and failing expressions, in two output modes. Whenever MustFail holds the run must end with an error (non-zero "
+            "exit, message on stderr). Four swallowing sites found were repaired.",
+            "Chains up to height 2 (3 in thorough). Input read errors are emulated by malformed content, not by failing syscalls.",
+            "TLA+ fault/propagation model + exhaustive fault injection on the real pipeline and CLI", "DESIGN.md 6/C06"),
+    "C07": ("exploration",
+            "No Go panic may escape: the SQL text of TLC-generated queries (all Relational.tla families), seeded token mutations of them, an edge catalogue of "
+            "80 expressions x 13 syntactic places (projection, WHERE, JOIN ON, GROUP BY key, ORDER BY, LIMIT, subquery) and input files whose later rows "
+            "differ from the previewed schema run through the in-process engine (panics outside the typechecker's recover are crashes; a crash of the harness "
+            "process itself is re-run per case in isolation) and through the real binary (exit status 0/1, no panic trace). Four crash sites found were repaired; "
+            "every other check also treats a panic as a violation.",
+            "Mutations of generated programs, not every string. Oracle says nothing about results.", "spec-generated corpus + mutation fuzzing of the real pipeline and CLI with a no-panic oracle",
+            "DESIGN.md 6/C07"),
 }
 
 NA_DEFAULT = "check not built yet (work in progress; will be claimed once its TLA+ spec and conformance harness are committed)"
